@@ -41,6 +41,21 @@ CHECKS = {
         ref="§6 C12, §8 F4",
         note="Trusts kernel+VM, the transcription of Tokenize incl. explicit bounds checks (tied by the tokenize family: kind byte exhaustive 0..255, both parities, invalid UTF-8), harness panic recovery. No axioms.",
         technique="Coq proof (structural recursion with explicit panic outcomes) + differential correspondence + direct totality/prefix oracle"),
+    "C05": dict(
+        text="Theorems for every title function, budget, recipe and raw-word stream: a returned wordlist password is the interleaving (assemble) of Length chosen atoms — word idx_i or, exactly at the positions the scheme selected, its title-cased form — with Length-1 separator values each in the range of its separator function, empty ones giving no token; the five schemes' position patterns; Atoms()/Separators() recover the atoms/separators in order; no leading separator.",
+        ref="§6 C05, §8 F7",
+        note="Trusts kernel+VM, the hand model of the token assembly loop (tied by the wlgen correspondence family, with the list order and strings.Title graph read from the implementation). Premise for the exactly-Length-atoms corollary: no kept word is empty (known finding F7 is reported otherwise). No axioms.",
+        technique="Coq proof (support of the gen term by induction over the assembly loop) + differential correspondence + structural oracle"),
+    "C08": dict(
+        text="Theorems: every value Entropy() can return has components Length, size, bonus_of and the separator's entropy; the bonus is granted iff every kept word changes under title-casing and the scheme is random/one; size and un-capitalisable count, hence the value, are the same for any two constructions from inputs with the same elements (any order, repetition, map iteration order).",
+        ref="§6 C08, §8 F2",
+        note="Trusts kernel+VM, hand model of NewWordList/Entropy (tied by wlgen and the repeated-construction wlentropy family), idempotence of strings.Title (hypothesis in the statements, re-checked by the harness on every word), float32 arithmetic compared with an 8-ulp tolerance. No axioms.",
+        technique="Coq proof (order-independence of the twin-removal pass, permutation invariance of counts) + differential correspondence + repeated-construction oracle"),
+    "C10": dict(
+        text="Theorems for every idempotent title function, every input list and every map iteration order: the kept words are exactly the distinct input words that are not the title-cased form of another listed word, without duplicates; the kept set, Size and un-capitalisable count are invariant under reordering/repetition of the input; an empty list is an error.",
+        ref="§6 C10",
+        note="Trusts kernel+VM, hand model of NewWordList with explicit iteration-order parameters (tied by the wordlist family: kept set read out through one-word passwords, several constructions per input). Caller-slice immutability: by the model's immutability, the translator's effect summary and the before/after comparison. No axioms.",
+        technique="Coq proof (invariant over deletion-while-ranging, for all visiting orders) + differential correspondence + specification oracle with the real strings.Title graph"),
 }
 PENDING = {}
 
